@@ -46,6 +46,18 @@ claimed = {
    text="Deterministic simulation of the whole stack — real client library, real server framework, real Ufs on a per-run scratch tree — over the simulated transport: 1..6 caller goroutines with several files open at once, file lengths around every iounit boundary, reads and writes through Clnt.Read/Write and the File helpers (Read, Write, ReadAt, WriteAt, Readn, Written) at offsets around 0, EOF and iounit multiples with counts around the iounit and several iounits; a byte-slice model per file decides every result and os.ReadFile is compared with the model after every write. iounit 128..65512 (limited further by the server's msize), both dialects, segmentation by policy.",
    note="Trusts the host file system and os package, the instrumenter, the simulated transport. Each file is used by one caller (concurrent writers to one file have no single expected content).",
    technique="deterministic simulation: full client+server+Ufs stack under seeded schedules and segmentation; byte-array reference model and os.ReadFile oracle"),
+ "C15": dict(level="exploration", ref="§4 C15",
+   text="Deterministic simulation of the server framework and the real Ufs on scratch directories of 0..50 (thorough ..3000) entries with name lengths 1..255: a raw peer reads the directory following the protocol's offset rule with a fixed count enumerated (by run index) from the largest entry size up to about three entries, with random counts, with a restart at offset 0 in the middle, and with a count too small for the next entry; the client's Readdir(0) is run as well. Every payload is split into whole stat records by an independent decoder and the concatenated listing is compared with os.ReadDir.",
+   note="Trusts the host file system, the instrumenter and the harness stat decoder. Readdir(n) with n != 0 is outside the statement and not judged.",
+   technique="deterministic simulation: full server+Ufs stack, enumerated read counts; independent stat decoder and os.ReadDir as oracle"),
+ "C16": dict(level="exploration", ref="§4 C16",
+   text="Deterministic simulation of the server framework and the real Ufs on random trees (nesting up to 40 levels, names with spaces, non-ASCII bytes, dots, 255 bytes; files, directories, symlinks, hard links): walks by name lists of which a prefix exists, to a new fid and in place, are judged against os.Lstat (number of qids, error iff the first element is missing), Tstat on both fids afterwards decides where they point, and every qid and stat record (type bits, permission bits, length, mtime, name, symlink target, qid path per inode) is compared with the underlying file; the client's FStat resolves every path, deep ones through several Twalks.",
+   note="Trusts the host file system and os.Lstat as reference, the instrumenter, the harness codec.",
+   technique="deterministic simulation: full server+Ufs stack on generated trees; os.Lstat differential oracle"),
+ "C17": dict(level="exploration", ref="§4 C17",
+   text="Deterministic simulation with a twin-tree differential: random mutation sequences (create of files with every open mode, directories, symlinks incl. dangling, hard links; writes; removes; wstat rename to free and occupied names, truncate, chmod, mtime) are applied through raw 9P requests to the tree exported by the real Ufs and with os/syscall calls to a twin; the trees are compared recursively after every step, error replies to create/remove must leave the tree unchanged and carry the errno of the failing POSIX call in 9P2000.u, and the fid must name the created or renamed object afterwards.",
+   note="Trusts the host file system and the os/syscall package as the POSIX reference (rename(2) via syscall.Rename). Runs as root, so permission failures do not occur naturally; OS-error injection is not built (DESIGN.md §6).",
+   technique="deterministic simulation: full server+Ufs stack; twin-tree differential against POSIX operations after every step"),
 }
 na = {
  "C01": "pure function of (fields, dialect): no schedule, clock, fault or interleaving; deterministic simulation does not apply (DESIGN.md §1)",
